@@ -31,7 +31,7 @@ for k, v in rev.items():
     if r == 'caught':
         r += ", concrete replay" if v.get('concrete') else ", broken tie"
     if v.get('note'):
-        r += " — " + v['note']
+        r = ("not reported, correctly" if v['status'] == 'MISSED' else r) + " — " + v['note']
     out.append("| %s (%s) | %s | %s |" % (k, v['commit'], v['property'], r))
 text = "\n".join(out)
 p = R + '/DESIGN.md'
